@@ -566,8 +566,8 @@ class PopulationBalanceModel:
 
         dXdt = (self._netFlux[:-1] - self._netFlux[1:])
 
-        #Find size class for nucleated particles
-        nRad = np.argmax(self.PSDbounds > nucRadius) - 1
+        #Find size class for nucleated particles (nearest class if the radius is outside of the size classes)
+        nRad = np.clip(np.searchsorted(self.PSDbounds, nucRadius, side='right') - 1, 0, self.bins - 1)
         dXdt[nRad] += nucRate
 
         return dXdt
@@ -618,8 +618,8 @@ class PopulationBalanceModel:
 
         dXdt = (self._netFlux[:-1] - self._netFlux[1:])
 
-        #Find size class for nucleated particles
-        nRad = np.argmax(self.PSDbounds > nucRadius) - 1
+        #Find size class for nucleated particles (nearest class if the radius is outside of the size classes)
+        nRad = np.clip(np.searchsorted(self.PSDbounds, nucRadius, side='right') - 1, 0, self.bins - 1)
         dXdt[nRad] += nucRate
 
         return dXdt
